@@ -10,9 +10,11 @@ import math
 import os
 
 from .. import env, gen, runner
+from .. import units as U
 from ..pool import Pool
 
 UNBOUNDED = 1e29
+CURRENCY_TYPES = ('CURRENCY', 'CURRENCYFREQUENCY', 'ENERGYCOST', 'COSTPERMASS')
 
 FAMILIES = {
     # family -> (example or None, overrides)
@@ -60,7 +62,7 @@ def _eps(x):
     return max(1e-9, abs(x) * 1e-7)
 
 
-def make_probes(decl, schema):
+def make_probes(decl, schema, cat=None):
     """decl: {module: {'class':..., 'params': {name: P}}} from the after_read hook."""
     probes = []
     seen = set()
@@ -86,6 +88,21 @@ def make_probes(decl, schema):
                     # far outside and negative: code that treats "a negative number" as a flag rather than as a value
                     span = (abs(lo) + abs(hi)) if abs(hi) < UNBOUNDED else abs(lo) + 1.0
                     probes.append((name, -(span + 1.5), 'far-below-min', dom))
+                # the same out-of-range quantity written in another listed unit must be rejected as well
+                ut, pref = p.UnitType, p.PreferredUnits
+                if cat and ut in cat and ut not in CURRENCY_TYPES and pref and p.CurrentUnits == pref \
+                        and abs(lo) < UNBOUNDED and abs(hi) < UNBOUNDED and hi > lo:
+                    others = [u for u in cat[ut] if u and u != pref]
+                    if others:
+                        u = others[(len(name) + len(others)) % len(others)]
+                        for kind, v in (('above-max-other-unit', hi + 0.05 * (hi - lo) + 1e-6), ('below-min-other-unit', lo - 0.05 * (hi - lo) - 1e-6)):
+                            try:
+                                conv = U.convert(v, pref, u)
+                                back = U.convert(conv, u, pref)
+                            except ValueError:
+                                continue
+                            if math.isfinite(conv) and abs(back - v) <= 1e-9 * max(1.0, abs(v)):
+                                probes.append((name, v, kind, dict(dom, text=f'{conv!r} {u}', unit=u)))
                 if abs(hi) < UNBOUNDED:
                     probes.append((name, hi, 'max', dom))
                     probes.append((name, hi + _eps(hi), 'above-max', dom))
@@ -115,7 +132,7 @@ def make_probes(decl, schema):
     for name, val, kind, dom in probes:
         d = dom.get('default')
         try:
-            if d is not None and float(getattr(d, 'int_value', d)) == float(val) and kind in ('below-min', 'above-max', 'non-member', 'far-below-min', 'far-above-max'):
+            if d is not None and float(getattr(d, 'int_value', d)) == float(val) and kind in ('below-min', 'above-max', 'non-member', 'far-below-min', 'far-above-max', 'above-max-other-unit', 'below-min-other-unit'):
                 continue                       # the documented 'not provided' sentinel
         except (TypeError, ValueError):
             pass
@@ -147,7 +164,7 @@ def probe_job(text, probes, family):
                 for e in C.READ_EVENTS:
                     if e['key'] == name and e.get('obj') is not None:
                         final['value'] = e['obj'].value
-        res = runner.run_text(text + f'\n{name}, {_fmt(val)}\n', want_snap=False, stop_after_read=True,
+        res = runner.run_text(text + f'\n{name}, {pr["dom"].get("text") or _fmt(val)}\n', want_snap=False, stop_after_read=True,
                               callbacks=(at_end_of_read,))
         evs = [e for e in C.READ_EVENTS if e['key'] == name]
         in_domain = kind in ('min', 'max')
@@ -275,7 +292,7 @@ def hip_probe_job(probes, family='hip-ra-x'):
     for pr in probes:
         name, val, kind = pr['name'], pr['value'], pr['kind']
         C.reset()
-        res = run_hip(HIP_BASE + f'{name}, {_fmt(val)}\n')
+        res = run_hip(HIP_BASE + f'{name}, {pr["dom"].get("text") or _fmt(val)}\n')
         evs = [e for e in C.READ_EVENTS if e['key'] == name]
         in_domain = kind in ('min', 'max')
         err = res['error'] or ''
@@ -329,7 +346,7 @@ def hip_probe_job(probes, family='hip-ra-x'):
                 try:
                     with contextlib.redirect_stdout(io.StringIO()), contextlib.redirect_stderr(io.StringIO()):
                         params = dict(ln.split(', ', 1) for ln in HIP_BASE.strip().split('\n'))
-                        params[name] = _fmt(val)
+                        params[name] = pr['dom'].get('text') or _fmt(val)
                         HipRaXClient().get_hip_ra_result(HipRaInputParameters(params))
                 except RuntimeError as ex:
                     cerr = str(ex)
@@ -362,7 +379,7 @@ def api_job(text, probe, family):
     name, val, kind = probe['name'], probe['value'], probe['kind']
     wd = runner.workdir()
     path = Path(wd, f'api_{abs(hash((family, name, kind))) % 10**9}.txt')
-    path.write_text(text + f'\n{name}, {_fmt(val)}\n', encoding='utf-8')
+    path.write_text(text + f'\n{name}, {probe["dom"].get("text") or _fmt(val)}\n', encoding='utf-8')
     params = GeophiresInputParameters(from_file_path=path)
     outp = Path(params.get_output_file_path())
     if outp.exists():
@@ -434,6 +451,8 @@ def run(ctx):
     from .. import env as _env
     _env.bootstrap()
     schema = load_schema()
+    from .c06 import catalogue
+    cat = catalogue()
     fams = QUICK_FAMILIES if ctx.quick else list(FAMILIES)
     jobs = []
     api_jobs = []
@@ -445,7 +464,7 @@ def run(ctx):
             ctx.reject(res.exc_type, res.exc_msg)
             ctx.mon.note('family-base-not-readable:' + fam)
             continue
-        probes = make_probes(res.read, schema)
+        probes = make_probes(res.read, schema, cat)
         nprobes[fam] = len(probes)
         for i in range(0, len(probes), 40):
             jobs.append({'fn': 'gxv.props.c07:probe_job', 'args': {'text': text, 'probes': probes[i:i + 40], 'family': fam},
@@ -460,7 +479,7 @@ def run(ctx):
             for p in take_r + take_a:
                 api_jobs.append({'fn': 'gxv.props.c07:api_job', 'args': {'text': text, 'probe': p, 'family': fam}, 'timeout': 300})
     # the heat-in-place program (anchored in the property: src/hip_ra_x/hip_ra_x.py) is a family of its own
-    hp = make_probes(hip_declarations(), {})
+    hp = make_probes(hip_declarations(), {}, cat)
     nprobes['hip-ra-x'] = len(hp)
     for i in range(0, len(hp), 12):
         jobs.append({'fn': 'gxv.props.c07:hip_probe_job', 'args': {'probes': hp[i:i + 12], 'family': 'hip-ra-x'}, 'timeout': 600})
